@@ -172,7 +172,7 @@ def build(unit):
                     s, e, wpre, wsuf = extract.find_item(src, masked, d["path"])
                     body = src[s:e]
                     where = f"{d['file']}:{extract.line_of(src, s)}-{extract.line_of(src, e)} {d['path']}"
-                    body = extract.transform(body, exlog["rules_applied"], where)
+                    body = extract.transform(body, exlog["rules_applied"], where, keep_eq=d.get("keep_eq") == "1")
                     body = extract.drop_statements(body, drops, exlog["dropped"], where)
                     if d.get("rename"):
                         a, _, b = d["rename"].partition(":")
